@@ -527,7 +527,10 @@ class Interp:
         if isinstance(a, (str, SStr)) and isinstance(b, (str, SStr)) and t in (ast.Lt, ast.Gt, ast.LtE, ast.GtE):
             if isinstance(a, str) and isinstance(b, str): return {ast.Lt: a < b, ast.LtE: a <= b, ast.Gt: a > b, ast.GtE: a >= b}[t]
             if getattr(self, 'abstract_str_order', False): return self._abs_order(t, a, b)
-            za, zb_ = self.st.norm(a).z(), self.st.norm(b).z()
+            r = self._lex_structural(t, a, b)
+            if r is not None: return r
+            ra, rb = self._strip_common_prefix(a, b)
+            za, zb_ = ra.z(), rb.z()
             return SBool({ast.Lt: za < zb_, ast.LtE: za <= zb_, ast.Gt: zb_ < za, ast.GtE: zb_ <= za}[t])
         if isinstance(a, PObj):
             name = {ast.Lt: '__lt__', ast.Gt: '__gt__', ast.LtE: '__le__', ast.GtE: '__ge__'}[t]
@@ -551,6 +554,39 @@ class Interp:
             return {ast.Lt: len(a) < len(b), ast.LtE: len(a) <= len(b), ast.Gt: len(a) > len(b), ast.GtE: len(a) >= len(b)}[t]
         if a is None or b is None: self.raise_('TypeError', 'ordering comparison with None')
         raise OutsideSubset(f'compare {t.__name__} {type(a).__name__} {type(b).__name__}')
+    def _strip_common_prefix(self, a, b):
+        """x.u < x.v  <=>  u < v : drop the common leading atoms / characters of two structured strings"""
+        la, lb = list(self.st.norm(S(a)).atoms), list(self.st.norm(S(b)).atoms)
+        while la and lb:
+            x, y = la[0], lb[0]
+            if isinstance(x, Var) and isinstance(y, Var) and x.name == y.name: la.pop(0); lb.pop(0); continue
+            if isinstance(x, str) and isinstance(y, str):
+                n = 0
+                while n < len(x) and n < len(y) and x[n] == y[n]: n += 1
+                if n == 0: break
+                la[0] = x[n:]; lb[0] = y[n:]
+                if not la[0]: la.pop(0)
+                if not lb[0]: lb.pop(0)
+                if n < len(x) and n < len(y): break
+                continue
+            break
+        return SStr(la), SStr(lb)
+    def _lex_structural(self, t, a, b):
+        """decide a < b structurally when, after the common prefix, both continue with different literal characters or one is exhausted"""
+        ra, rb = self._strip_common_prefix(a, b)
+        la, lb = ra.atoms, rb.atoms
+        if not la and not lb: lt, eq = False, True
+        elif not la: lt, eq = None, False           # a is a proper prefix of b only if b's rest is non-empty
+        elif not lb: lt, eq = None, False
+        elif isinstance(la[0], str) and isinstance(lb[0], str): lt, eq = la[0][0] < lb[0][0], False
+        else: return None
+        if lt is None:
+            rest = rb if not la else ra
+            ne = self.st.truthy_str(rest)
+            if ne is True: lt = not la
+            elif ne is False: lt, eq = False, True
+            else: return None
+        return {ast.Lt: lt, ast.LtE: lt or eq, ast.Gt: (not lt) and not eq, ast.GtE: not lt}[t]
     def _abs_order(self, t, a, b):
         """string order abstracted to an arbitrary strict total order (sound for properties that must hold for every total order):
         equal strings are not less; for distinct strings one of the two directions is chosen non-deterministically, consistently per pair"""
@@ -1153,9 +1189,21 @@ def _lit(it, s):
 def _s_count(it, s, c):
     ls, lc = _lit(it, s), _lit(it, c)
     if ls is not None and lc is not None: return ls.count(lc)
-    if not (lc is not None and len(lc) == 1): raise OutsideSubset('count multi-char on symbolic')
+    if lc is not None and len(lc) > 1: return _count_multi(it, s, lc)
+    if not (lc is not None and len(lc) == 1): raise OutsideSubset('count with a symbolic needle')
+    sn = it.st.norm(S(s))
+    if all(isinstance(a, str) or lc in it.st.excl.get(a.name, ()) for a in sn.atoms):
+        return sum(a.count(lc) for a in sn.atoms if isinstance(a, str))        # exact: no variable can contain the character
     parts, _ = it.st.split(s, lc, 1, f'count {lc!r}')
     return 0 if len(parts) == 1 else CountGE1()
+def _vars_cannot_touch(it, sn, needle):
+    """every variable atom is non-empty and free of every character of the needle: an occurrence of the needle lies inside one literal atom"""
+    st = it.st
+    return all(isinstance(a, str) or (a.name in st.nonempty and all(ch in st.excl.get(a.name, ()) for ch in set(needle))) for a in sn.atoms)
+def _count_multi(it, s, needle):
+    sn = it.st.norm(S(s))
+    if not _vars_cannot_touch(it, sn, needle): raise OutsideSubset(f'count of {needle!r} in a string whose variables may contain or straddle it')
+    return sum(a.count(needle) for a in sn.atoms if isinstance(a, str))
 def _s_split(it, s, c=None, maxsplit=-1):
     ls, lc = _lit(it, s), _lit(it, c) if c is not None else None
     if ls is not None and (c is None or lc is not None): return ls.split(lc, maxsplit)
@@ -1284,18 +1332,17 @@ def _s_replace(it, s, old, new, count=-1):
     raise OutsideSubset('replace symbolic')
 def _replace_multi(it, s, old, new):
     """str.replace with a multi-character literal needle on a structured string.
-    Exact when every variable atom excludes some character of the needle ... otherwise forks on needle occurrence via the solver."""
-    sn = it.st.norm(s)
-    # fast path: no variable can participate in an occurrence of `old`
-    def var_blocks(a): return any(c in it.st.excl.get(a.name, ()) for c in old) and all(False for _ in ())
-    vars_ = [a for a in sn.atoms if isinstance(a, Var)]
-    if all(all(c in it.st.excl.get(a.name, ()) for c in set(old)) for a in vars_):
-        # every variable is free of every needle character: occurrences lie inside literal atoms only
+    Exact when no occurrence can touch a variable; otherwise the case 'no occurrence touches a variable' is split off with the solver and the
+    other case is outside the subset (its result cannot be written structurally)."""
+    st = it.st; sn = st.norm(S(s))
+    if _vars_cannot_touch(it, sn, old):
         return simp(SStr([a.replace(old, new) if isinstance(a, str) else a for a in sn.atoms]))
-    # general case: ask whether the needle can occur at all
-    occurs = SBool(z3.Contains(sn.z(), z3.StringVal(old)))
-    if not it.st.branch(occurs, f'replace {old!r} occurs'):
-        return simp(sn)
+    # remove the occurrences that lie inside literal atoms; ask whether the needle can still occur in what remains
+    marker = '\x00\x01'
+    stripped = SStr([a.replace(old, marker) if isinstance(a, str) else a for a in sn.atoms])
+    occurs = SBool(z3.Contains(stripped.z(), z3.StringVal(old)))
+    if not st.branch(occurs, f'replace {old!r} touches a variable'):
+        return simp(SStr([a.replace(old, new) if isinstance(a, str) else a for a in sn.atoms]))
     raise OutsideSubset(f'replace of multi-character needle {old!r} that may overlap symbolic parts')
 def _strip_side(it, atoms, cs, right):
     """exact strip of the characters `cs` from one side of a structured string (list of atoms, modified in place)"""
